@@ -52,14 +52,6 @@ func (jm *jobManager) Submit(logger *zap.Logger, name string, job func() error) 
 }
 
 func (jm *jobManager) worker() {
-	defer func() {
-		if err := recover(); err != nil {
-			buf := make([]byte, stackTraceBufferSize)
-			buf = buf[:runtime.Stack(buf, false)]
-			log.Printf("panic: certificate worker: %v\n%s", err, buf)
-		}
-	}()
-
 	for {
 		jm.mu.Lock()
 		if len(jm.queue) == 0 {
@@ -70,14 +62,28 @@ func (jm *jobManager) worker() {
 		next := jm.queue[0]
 		jm.queue = jm.queue[1:]
 		jm.mu.Unlock()
-		if err := next.job(); err != nil {
-			next.logger.Error("job failed", zap.Error(err))
+		jm.runJob(next)
+	}
+}
+
+// runJob runs a single job. A panic is recovered per job (not per worker)
+// so that the job's name is always released and the worker carries on with
+// the next job in the queue instead of dying with its slot still counted.
+func (jm *jobManager) runJob(next namedJob) {
+	defer func() {
+		if err := recover(); err != nil {
+			buf := make([]byte, stackTraceBufferSize)
+			buf = buf[:runtime.Stack(buf, false)]
+			log.Printf("panic: certificate worker: %v\n%s", err, buf)
 		}
 		if next.name != "" {
 			jm.mu.Lock()
 			delete(jm.names, next.name)
 			jm.mu.Unlock()
 		}
+	}()
+	if err := next.job(); err != nil {
+		next.logger.Error("job failed", zap.Error(err))
 	}
 }
 
